@@ -28,6 +28,7 @@ type RewardShadow struct {
 	E        map[PosKey]map[string]*big.Rat
 	Q        map[PosKey]map[string]*big.Rat
 	N        map[PosKey]int  // receipts since last settlement
+	FracErr  map[PosKey]*big.Rat // largest 18-digit relative error of the validator's token value (1e-18 / (vs/tvs)) at a receipt
 	Vmin, Vmax map[PosKey]*big.Rat // exact value of the position at the receipts since last settlement
 	Taint    map[PosKey]string // value-changing event since accrual: claim only bounded (C12's domain)
 	lastIdx  int
@@ -42,7 +43,7 @@ type RewardShadow struct {
 
 func (r *Runner) rewardShadow() *RewardShadow {
 	if r.Rw == nil {
-		r.Rw = &RewardShadow{R: r, E: map[PosKey]map[string]*big.Rat{}, Q: map[PosKey]map[string]*big.Rat{}, N: map[PosKey]int{}, Vmin: map[PosKey]*big.Rat{}, Vmax: map[PosKey]*big.Rat{}, Taint: map[PosKey]string{}, lastIdx: -1, Received: sdk.NewCoins(), Paid: sdk.NewCoins(), Stranded: sdk.NewCoins(), Overpaid: map[string]*big.Rat{}, OverRound: map[string]*big.Rat{}, OverRounder: map[string]*big.Rat{}}
+		r.Rw = &RewardShadow{R: r, E: map[PosKey]map[string]*big.Rat{}, Q: map[PosKey]map[string]*big.Rat{}, N: map[PosKey]int{}, FracErr: map[PosKey]*big.Rat{}, Vmin: map[PosKey]*big.Rat{}, Vmax: map[PosKey]*big.Rat{}, Taint: map[PosKey]string{}, lastIdx: -1, Received: sdk.NewCoins(), Paid: sdk.NewCoins(), Stranded: sdk.NewCoins(), Overpaid: map[string]*big.Rat{}, OverRound: map[string]*big.Rat{}, OverRounder: map[string]*big.Rat{}}
 	}
 	return r.Rw
 }
@@ -97,6 +98,15 @@ func (rs *RewardShadow) attribute(s *Snap, now time.Time, val string, W sdk.Coin
 				continue
 			}
 			rs.N[pk]++
+			if a := s.Assets[x.denom]; !a.TotalValidatorShares.IsZero() {
+				if vsr := ratDec(decAmount(v.Info.ValidatorShares, x.denom)); vsr.Sign() > 0 {
+					fe := new(big.Rat).Quo(ratDec(a.TotalValidatorShares), vsr)
+					fe.Mul(fe, big.NewRat(2, 1_000_000_000_000_000_000))
+					if rs.FracErr[pk] == nil || fe.Cmp(rs.FracErr[pk]) > 0 {
+						rs.FracErr[pk] = fe
+					}
+				}
+			}
 			if rs.Vmin[pk] == nil || pv.Cmp(rs.Vmin[pk]) < 0 {
 				rs.Vmin[pk] = pv
 			}
@@ -160,6 +170,7 @@ func (rs *RewardShadow) settle(pk PosKey) {
 	delete(rs.E, pk)
 	delete(rs.Q, pk)
 	delete(rs.N, pk)
+	delete(rs.FracErr, pk)
 	delete(rs.Vmin, pk)
 	delete(rs.Vmax, pk)
 	delete(rs.Taint, pk)
@@ -874,6 +885,11 @@ func (m *MonC12) classify(s *Snap, msg string, branchPaid ...sdk.Coins) (string,
 		fe.Mul(fe, big.NewRat(2, 1_000_000_000_000_000_000))
 		if fe.Cmp(maxFracErr) > 0 {
 			maxFracErr = fe
+		}
+	}
+	for _, fe := range m.rs.FracErr {
+		if fe.Cmp(maxFracErr) > 0 {
+			maxFracErr = fe // the error at the time the rewards were received (the fraction may have grown since)
 		}
 	}
 	if maxFracErr.Cmp(ratI64(1)) > 0 {
